@@ -24,4 +24,18 @@ CHECKS = {
         technique="runtime monitoring: per-site change-flag probe + evaluated arguments vs executable reference model of the category algebra",
         ref="DESIGN.md section 4 C05",
     ),
+    "C06": dict(
+        level="exploration",
+        text="The same recording-style file is executed by the real code in an active session without category flags and with inline-snapshot inactive; the two comparison logs (result type, value, exception type) are compared position by position over thousands of comparisons (equal / near / unrelated operands, five operations, Is() and inner snapshots nested in the stored value); all 20 ordered pairs of two different operations on one snapshot must raise TypeError; inactive snapshot(v) must be v itself; the file must stay byte-identical.",
+        note="Scope restrictions of the statement are enforced by construction and by skipping (and counting) comparisons that raise on the plain value. Real-session equivalence of pass/fail is sampled by C07's sessions.",
+        technique="runtime monitoring: differential comparison-event log (active session vs snapshot:=identity)",
+        ref="DESIGN.md section 4 C06",
+    ),
+    "C08": dict(
+        level="exploration",
+        text="Histories of 2-4 identical runs of generated deterministic programs with the same approved set (all four categories, or a random subset): file bytes after run 1 are compared with those after every later run; after an all-categories run the second run must report no create/fix/trim at any site, log only True comparisons and leave the missing/incorrect counters at zero.",
+        note="In-process histories (fresh directory per run, shared external storage). Programs come from the C02 and C05 generators.",
+        technique="runtime monitoring: history workload with file-hash + per-site change-flag monitors (idempotence oracle)",
+        ref="DESIGN.md section 4 C08",
+    ),
 }
